@@ -1,3 +1,4 @@
+//go:build verif
 // +build verif
 
 // Package vhook provides verification hook points. With the "verif" build tag
